@@ -8,8 +8,7 @@
     head / tail pointers, one height->id map standing for pending+disk (the
     commit happens before pending.Reset, so a header is never in neither),
     heightSub.height, the heightSubs map. Heights are N (no wrap: heights
-    below 2^64-1). Fields marked GHOST are never read by a step function
-    except to compute another ghost value. *)
+    below 2^64-1). [st_notified] is a GHOST field: no step function reads it. *)
 From GH Require Import Base.Prelude.
 
 (** result of GetByHeight, as the harness projects it *)
@@ -19,20 +18,26 @@ Inductive res :=
 | RCtx                (* the context's error (wrapped "awaiting header ...") *)
 | RZero.              (* "height must be bigger than zero" *)
 
+(** where a registered waiter is inside heightSub.WaitFor *)
+Inductive phase :=
+| PRecheck            (* registered; next: present() = getByHeight again *)
+| PDereg              (* present() was true; next: lock; notify(n, false); unlock; return nil *)
+| PSelect.            (* in the select on the sub's channel and ctx.Done() *)
+
 (** program counter of one GetByHeight call *)
 Inductive rpc :=
 | RStart              (* next: first getByHeight *)
-| RCheck1             (* first lookup failed; next: Wait's unlocked Height() >= n test *)
+| RCheck1             (* first lookup failed; next: WaitFor's unlocked Height() >= n test *)
 | RLocked             (* next: the critical section: re-check Height(), register in heightSubs *)
-| RParked (sig : bool)(* in the select; sig = the sub's channel has been closed *)
-| RLookup2            (* errElapsedHeight or woken; next: second getByHeight *)
+| RWait (ph : phase) (sig : bool)
+                      (* registered (counted in the sub); sig = the sub's channel has been closed *)
+| RLookup2            (* errElapsedHeight, present, or woken; next: final getByHeight *)
 | RDone (r : res).
 
 Record reader := Reader {
   r_n : N;            (* requested height *)
   r_pc : rpc;
-  r_cancel : bool;    (* its context has ended *)
-  r_late : bool       (* GHOST: at registration, r_n had already been announced by Notify *)
+  r_cancel : bool     (* its context has ended *)
 }.
 
 Definition hid := (N * N)%type.   (* a header: (height, hash id) *)
@@ -117,7 +122,7 @@ Definition has_sub (l : list (N * nat)) (n : N) : bool :=
 (** closing a sub's channel: every reader selecting on it becomes signalled *)
 Definition signal (p : N -> bool) (r : reader) : reader :=
   match r_pc r with
-  | RParked false => if p (r_n r) then Reader (r_n r) (RParked true) (r_cancel r) (r_late r) else r
+  | RWait ph false => if p (r_n r) then Reader (r_n r) (RWait ph true) (r_cancel r) else r
   | _ => r
   end.
 
@@ -153,11 +158,15 @@ Fixpoint upd {A} (l : list A) (i : nat) (x : A) : list A :=
 Definition set_reader (s : state) (i : nat) (r : reader) : state :=
   set_readers s (upd (st_readers s) i r).
 
-Definition with_pc (r : reader) (pc : rpc) : reader := Reader (r_n r) pc (r_cancel r) (r_late r).
+Definition with_pc (r : reader) (pc : rpc) : reader := Reader (r_n r) pc (r_cancel r).
 
-(** the ctx.Done() branch of Wait's select: lock; notify(n, false); unlock; return ctx.Err() *)
+(** the ctx.Done() branch of the select: lock; notify(n, false); unlock; return ctx.Err() *)
 Definition ctx_branch (s : state) (i : nat) (r : reader) : state :=
   notify_one (r_n r) (set_reader s i (with_pc r (RDone RCtx))).
+
+(** present() was true: lock; notify(n, false); unlock; return nil *)
+Definition dereg_branch (s : state) (i : nat) (r : reader) : state :=
+  notify_one (r_n r) (set_reader s i (with_pc r RLookup2)).
 
 Definition lookup_res (s : state) (n : N) : res :=
   match lookup s n with Some id => RFound id | None => RNotFound end.
@@ -182,9 +191,15 @@ Definition rstep (ctxfirst : bool) (s : state) (i : nat) : state :=
       if n <=? st_hsh s then set_reader s i (with_pc r RLookup2)
       else
         let c := match sub_get (st_subs s) n with Some c => c | None => O end in
-        set_subs (set_reader s i (Reader n (RParked false) (r_cancel r) (mem n (st_notified s))))
+        set_subs (set_reader s i (with_pc r (RWait PRecheck false)))
                  (sub_set (st_subs s) n (S c))
-    | RParked sig =>
+    | RWait PRecheck sig =>
+      match lookup s n with
+      | Some _ => set_reader s i (with_pc r (RWait PDereg sig))
+      | None => set_reader s i (with_pc r (RWait PSelect sig))
+      end
+    | RWait PDereg sig => dereg_branch s i r
+    | RWait PSelect sig =>
       if ctxfirst then
         if r_cancel r then ctx_branch s i r else s
       else if sig then set_reader s i (with_pc r RLookup2)
@@ -198,7 +213,7 @@ Definition rstep (ctxfirst : bool) (s : state) (i : nat) : state :=
 Definition cancel (s : state) (i : nat) : state :=
   match nth_error (st_readers s) i with
   | None => s
-  | Some r => set_reader s i (Reader (r_n r) (r_pc r) true (r_late r))
+  | Some r => set_reader s i (Reader (r_n r) (r_pc r) true)
   end.
 
 (** ** the writer *)
@@ -304,11 +319,16 @@ Definition hsh_of (hd : option hid) : N := match hd with Some (h, _) => h | None
     (heightSub.Init(head height)), or empty; [ns] = requested heights of the
     readers that will call GetByHeight; [q] = the batches that will be appended *)
 Definition init (hd tl : option hid) (m : list hid) (ns : list N) (q : list (list hid)) : state :=
-  State hd tl m (hsh_of hd) [] (map (fun n => Reader n RStart false false) ns) WIdle q [].
+  State hd tl m (hsh_of hd) [] (map (fun n => Reader n RStart false) ns) WIdle q [].
 
 (** ** projections used by theorems and the oracle *)
+(** registered in heightSubs and its sub still open *)
 Definition parked (r : reader) : bool :=
-  match r_pc r with RParked false => true | _ => false end.
+  match r_pc r with RWait _ false => true | _ => false end.
+
+(** blocked: in the select, sub open (only a notification or its context ending continues it) *)
+Definition blocked (r : reader) : bool :=
+  match r_pc r with RWait PSelect false => true | _ => false end.
 
 Definition done_res (r : reader) : option res :=
   match r_pc r with RDone x => Some x | _ => None end.
